@@ -528,6 +528,18 @@ func (i *interpreter) spawn(fr *frame, instr *ssa.Go, fn value, args []value) {
 	}()
 }
 
+// chanOpInThread: channel communication of the code under test while logical
+// threads exist is outside what the cooperative scheduler models (a blocked
+// receive would park the only running goroutine and the native forced-schedule
+// replay could not follow it either). It ends the run as an engine error at
+// once, so the check answers "cannot decide" (exit 2) instead of hanging.
+func (i *interpreter) chanOpInThread(in ssa.Instruction) {
+	if i.threads == 0 || raceExempt(in) {
+		return
+	}
+	panic(engineErrorf("channel operation at %s while logical threads exist: channels of the code under test are not modelled by the cooperative scheduler", i.site(in)))
+}
+
 func (i *interpreter) aborted() {
 	if i.abortVal != nil {
 		panic(i.abortVal)
